@@ -26,9 +26,17 @@ func vrtCmdHeader(ls []string, m wt.AggregationMethod, xff float32) *wt.Header {
 }
 
 func vrtCmdLayouts() []string {
-	// both tiers use the same two layouts; the thorough tier adds all-archive selections on the
-	// 2-level layout and never-written archives on the 1-level layout
+	// both tiers use the same two layouts (copy, sum-copy, sum-diff are already at 5-20 min)
 	return []string{"1s:2s", "1s:2s,2s:4s"}
+}
+
+// vrtCmdLayoutsWide: the cheaper command harnesses (diff, sum, view, view-raw, remote reads) add
+// a 3-slot ring and a 5-second step in the thorough tier.
+func vrtCmdLayoutsWide() []string {
+	if vrt.Tier() == 1 {
+		return []string{"1s:2s", "1s:2s,2s:4s", "1s:3s", "5s:10s"}
+	}
+	return vrtCmdLayouts()
 }
 
 func vrtCmdInstant(h *wt.Header, name string) wt.Timestamp {
